@@ -282,6 +282,11 @@ func (c *Conn) Close() error {
 	return nil
 }
 
+// CloseRead closes only the reading side of this endpoint: pending and future reads on it fail and the
+// peer's writes fail with io.ErrClosedPipe at once, while this endpoint can still write and the peer still
+// reads what was written (additive; used to make a victim's answer writes fail while its input is still open).
+func (c *Conn) CloseRead() error { c.in.closeRead(); return nil }
+
 // CloseWrite half-closes: the peer reads EOF after draining.
 func (c *Conn) CloseWrite() error { c.out.closeWrite(); return nil }
 
